@@ -593,6 +593,16 @@ class BBLinearityChecker(ast.NodeVisitor):
                     # Also mark this place as implicitly used so we don't complain about
                     # it later.
                     for leaf in leaf_places(place):
+                        # If the reassigned place was used again after the borrow (e.g.
+                        # consumed), it cannot be handed back to the outer scope: the
+                        # body runs repeatedly
+                        later_use = inner_scope.used(leaf.id)
+                        if later_use is not None and not leaf.ty.copyable:
+                            raise GuppyTypeError(
+                                ComprAlreadyUsedError(
+                                    later_use.node, place, later_use.kind
+                                )
+                            )
                         inner_scope.use(
                             leaf.id, InoutReturnSentinel(leaf), UseKind.RETURN
                         )
